@@ -207,9 +207,31 @@ fn check(property: &str, tier: &str) {
             .and_then(|s| s.parse::<u64>().ok())
             .unwrap_or_else(|| sim.runs(thorough));
         let inflight = Inflight::new(sim.name());
+        let prop_owned = property.to_string();
         let batch = run_batch(runs, worker_count(), wall_cap, &|r| {
             inflight.record(r);
-            sim.run_one(seed, r)
+            // a panic that escapes a run: inside the code under test it is a violation (the harness
+            // called the library outside one of its guarded operation steps); inside the simulator's
+            // own sources it is a bug of the machinery
+            match core::catch(|| sim.run_one(seed, r)) {
+                core::Caught::Ok(out) => out,
+                core::Caught::Panic(m, l) => {
+                    if l.starts_with("sim/src") || l.starts_with("simsrc/") || l.contains("/sim/src/") {
+                        println!("HARNESS-ERROR: the simulator itself panicked in run {r}: {m} @ {l}");
+                        std::process::exit(2);
+                    }
+                    let mut out = RunOutcome::default();
+                    out.violations.push(Violation {
+                        property: prop_owned.clone(),
+                        oracle: "PANIC".into(),
+                        site: l.clone(),
+                        step: usize::MAX,
+                        detail: format!("a library call made by the simulator outside a guarded operation step panicked: {m} @ {l}"),
+                    });
+                    out
+                }
+                _ => RunOutcome::default(),
+            }
         });
         println!(
             "[{}] runs={} nontrivial-distinct={} states={} ticks={} violating-runs={} classes={} wall={:.1}s",
@@ -235,14 +257,21 @@ fn check(property: &str, tier: &str) {
                 }
                 continue;
             }
-            let (plan, mv, original_steps) = sim.minimise(seed, *run, v);
+            let (plan, mv, original_steps) = match core::catch(|| sim.minimise(seed, *run, v)) {
+                core::Caught::Ok(x) => x,
+                // a plan whose execution panics outside a guarded step cannot be minimised in process
+                _ => (sim.plan_json(seed, *run), v.clone(), 0),
+            };
             // several detection sites often minimise to the same failure: report it once
             if !reported.insert(mv.class()) {
                 continue;
             }
             // the minimised plan must reproduce in this process before it is written
-            let again = sim.replay(&plan);
-            let reproduced = again.violations.iter().any(|x| x.property == mv.property && x.oracle == mv.oracle);
+            let reproduced = match core::catch(|| sim.replay(&plan)) {
+                core::Caught::Ok(again) => again.violations.iter().any(|x| x.property == mv.property && x.oracle == mv.oracle),
+                core::Caught::Panic(..) => mv.oracle == "PANIC",
+                _ => false,
+            };
             if !reproduced {
                 eprintln!("harness error: minimised plan for class {class} (run {run}) does not reproduce");
                 std::process::exit(2);
@@ -325,7 +354,15 @@ fn replay(path: &PathBuf) {
         eprintln!("harness error: unknown simulator {} for {}", rf.simulator, rf.property);
         std::process::exit(2);
     };
-    let out = sim.replay(&rf.plan);
+    let out = match core::catch(|| sim.replay(&rf.plan)) {
+        core::Caught::Ok(o) => o,
+        core::Caught::Panic(m, l) => {
+            println!("replayed: a library call outside a guarded step panicked: {m} @ {l}");
+            println!("VIOLATION property={} replay={}", rf.property, path.display());
+            std::process::exit(1);
+        }
+        _ => RunOutcome::default(),
+    };
     match out
         .violations
         .iter()
